@@ -199,6 +199,9 @@ func (x *Exec) evalIdent(fr *frame, st *State, name string, opts *evalOpts) Valu
 	if m, ok := x.prog.contracts.Macros[name]; ok && len(m.Params) == 0 {
 		return x.evalExpr(fr, st, m.Body, opts)
 	}
+	if sig, ok := x.prog.specSigs[name]; ok && len(sig.Params) == 0 {
+		return Sc{T: T{name, sig.Ret}}
+	}
 	// package-level objects
 	if v, ok := x.pkgObject(fr, st, name); ok {
 		return v
